@@ -18,7 +18,7 @@ import (
 func init() {
 	core.Register(&core.Simple{
 		Id: "C04", Lvl: "exploration", Quick: 1500, Thorough: 60000, PerBatch: 750, Width: 32, Timeout: 900,
-		RuleText: "each case builds a generated account database (1-5 accounts, with/without guest, passwords 0..72 arbitrary bytes), logs two observers in, snapshots config dir + file root + chat/transfer tables, then lets a peer send generated handshake bytes, a first transaction with a (login,password) variant and 0-3 appended privileged requests; the reference predicate (valid handshake, account exists with empty login = guest, password equals current password) decides whether the peer must be logged in. distinct = (handshake class, credential class, appended request type, expected outcome); a race-build stress batch lets 60-120 peers fail to log in concurrently while three observers broadcast continuously and a hook delay stretches every registration. non-trivial = every case (each runs the real handleNewConnection)",
+		RuleText: "each case builds a generated account database (1-5 accounts, with/without guest, passwords 0..72 arbitrary bytes), logs two observers in, snapshots config dir + file root + chat/transfer tables, then lets a peer send generated handshake bytes, a first transaction with a (login,password) variant and 0-3 appended privileged requests; the reference predicate (valid handshake, account exists with empty login = guest, password equals current password) decides whether the peer must be logged in; in 3 of 7 cases an administrator first renames or deletes an account or changes its password through the protocol, and the peer then presents the formerly valid credentials. distinct = (handshake class, credential class, appended request type, expected outcome); a race-build stress batch lets 60-120 peers fail to log in concurrently while three observers broadcast continuously and a hook delay stretches every registration. non-trivial = every case (each runs the real handleNewConnection)",
 		Case: runCase,
 		Extra: func(tier string, seed int64) []core.Batch {
 			n := 12
@@ -259,6 +259,36 @@ func runCase(c *core.Case) {
 			brokenKind = ""
 		}
 	}
+	// the account database has a history: before the peer connects an administrator may have renamed an account,
+	// deleted one or changed a password — "existing account" and "current password" mean the state after that
+	history := core.Pick(r, []string{"", "", "", "rename", "delete", "password", "rename"})
+	var stale []account // credentials that were valid once and must be refused now
+	if history != "" && len(accs) > 3 {
+		k := 3 + r.Intn(len(accs)-3) // never the observers or guest
+		if accs[2].login != "guest" {
+			k = 2 + r.Intn(len(accs)-2)
+		}
+		old := accs[k]
+		switch history {
+		case "rename":
+			nl := old.login + "-renamed"
+			if rep, ok := obsA.Call(349, rc.F(101, rc.SubFields(rc.F(101, rc.Obfuscate([]byte(old.login))), rc.F(105, rc.Obfuscate([]byte(nl))), rc.FS(102, "N-"+nl), rc.F(106, []byte{0}), rc.F(110, rc.Bitmap(2, 9))))); ok && rep.Err == 0 {
+				accs[k].login = nl
+				stale = append(stale, old)
+			}
+		case "delete":
+			if rep, ok := obsA.Call(351, rc.F(105, rc.Obfuscate([]byte(old.login)))); ok && rep.Err == 0 {
+				accs = append(accs[:k:k], accs[k+1:]...)
+				stale = append(stale, old)
+			}
+		case "password":
+			np := "changed-" + string(r.Printable(6))
+			if rep, ok := obsA.Call(353, rc.F(105, rc.Obfuscate([]byte(old.login))), rc.FS(102, "N-"+old.login), rc.F(110, rc.Bitmap(2, 9)), rc.F(106, rc.Obfuscate([]byte(np)))); ok && rep.Err == 0 && np != old.pw {
+				accs[k].pw = np
+				stale = append(stale, old)
+			}
+		}
+	}
 	if !srv.Quiesce(refclient.Watchdog) {
 		c.Unsure("no quiescence after observer logins")
 		return
@@ -293,6 +323,10 @@ func runCase(c *core.Case) {
 	}
 	if brokenKind != "" && r.Chance(2, 3) {
 		target = account{"broken", "\x00unknowable", nil}
+	}
+	useStale := len(stale) > 0 && r.Chance(2, 3)
+	if useStale {
+		target = stale[0] // once valid, now renamed away / deleted / superseded
 	}
 	credClass := core.Pick(r, []string{"exact", "exact", "exact", "bitflip", "prefix", "extension", "emptypw", "otherpw", "unknownlogin", "emptylogin", "emptylogin-pw", "caselogin", "nofields", "truncated-frame"})
 	login, pw := []byte(target.login), []byte(target.pw)
@@ -404,6 +438,9 @@ func runCase(c *core.Case) {
 			appKind = core.Pick(r, appendTypes[1:])
 			tail = append(tail, appended(appKind, peer)...)
 		}
+	}
+	if useStale {
+		credClass = "stale-" + history + "/" + credClass
 	}
 	c.Describe(fmt.Sprintf("%s/%s/%s/ban=%s/%s/in=%v", hsClass, credClass, appKind, banClass, brokenKind, expectIn),
 		map[string]any{"handshake": fmt.Sprintf("%x", hs), "first_transaction": t1.String(), "credential_class": credClass, "appended": appKind, "guest_account": hasGuest, "expect_logged_in": expectIn})
